@@ -19,18 +19,47 @@ type Sink struct {
 	dgrams [][]byte
 	done   chan struct{}
 	forced bool
+	// ReplyN > 0: answer every datagram with ReplyN copies of Reply (for
+	// full-duplex tests of client transports)
+	Reply  []byte
+	ReplyN int
 }
 
 const soRcvBufForce = 33
 
 // NewSink listens on 127.0.0.1:0 with a large receive buffer (forced past
 // rmem_max when the process may do so).
-func NewSink() (*Sink, error) {
+func NewSink() (*Sink, error) { return NewSinkReply(nil, 0) }
+
+// NewSinkLowPort is NewSink on a port below the ephemeral range: for sinks that
+// are closed while a sender is still alive, so that the released port cannot be
+// handed to another process's sink (which would then receive the stray sends).
+func NewSinkLowPort() (*Sink, error) {
+	for i := 0; i < 50; i++ {
+		addr, err := net.ResolveUDPAddr("udp4", DeadPort())
+		if err != nil {
+			continue
+		}
+		conn, err := net.ListenUDP("udp4", addr)
+		if err != nil {
+			continue
+		}
+		return newSinkOn(conn, nil, 0), nil
+	}
+	return NewSink()
+}
+
+// NewSinkReply is NewSink answering every datagram with n copies of reply.
+func NewSinkReply(reply []byte, n int) (*Sink, error) {
 	conn, err := net.ListenUDP("udp4", &net.UDPAddr{IP: net.IPv4(127, 0, 0, 1)})
 	if err != nil {
 		return nil, err
 	}
-	s := &Sink{conn: conn, port: conn.LocalAddr().(*net.UDPAddr).Port, done: make(chan struct{})}
+	return newSinkOn(conn, reply, n), nil
+}
+
+func newSinkOn(conn *net.UDPConn, reply []byte, n int) *Sink {
+	s := &Sink{conn: conn, port: conn.LocalAddr().(*net.UDPAddr).Port, done: make(chan struct{}), Reply: reply, ReplyN: n}
 	if rc, err := conn.SyscallConn(); err == nil {
 		rc.Control(func(fd uintptr) {
 			if syscall.SetsockoptInt(int(fd), syscall.SOL_SOCKET, soRcvBufForce, 64<<20) == nil {
@@ -41,16 +70,19 @@ func NewSink() (*Sink, error) {
 		})
 	}
 	go s.loop()
-	return s, nil
+	return s
 }
 
 func (s *Sink) loop() {
 	defer close(s.done)
 	buf := make([]byte, 70000)
 	for {
-		n, _, err := s.conn.ReadFromUDP(buf)
+		n, from, err := s.conn.ReadFromUDP(buf)
 		if err != nil {
 			return
+		}
+		for i := 0; i < s.ReplyN; i++ {
+			s.conn.WriteToUDP(s.Reply, from)
 		}
 		d := make([]byte, n)
 		copy(d, buf[:n])
@@ -133,13 +165,28 @@ func (s *Sink) Close() {
 }
 
 // DeadPort returns an address on which nothing listens (sends get
-// ECONNREFUSED on the following send).
+// ECONNREFUSED on the following send). The port is taken from below the
+// kernel's ephemeral range: a port obtained by bind+close from the ephemeral
+// range can be handed to another process's sink a moment later, and the
+// "dead" destination would then deliver into that sink.
 func DeadPort() string {
-	conn, err := net.ListenUDP("udp4", &net.UDPAddr{IP: net.IPv4(127, 0, 0, 1)})
-	if err != nil {
-		return "127.0.0.1:9"
+	lo, hi := 2000, 30000
+	if b, err := os.ReadFile("/proc/sys/net/ipv4/ip_local_port_range"); err == nil {
+		var a, z int
+		if n, _ := fmt.Sscanf(string(b), "%d %d", &a, &z); n == 2 && a > 3000 {
+			hi = a - 1
+		}
 	}
-	port := conn.LocalAddr().(*net.UDPAddr).Port
-	conn.Close()
-	return fmt.Sprintf("127.0.0.1:%d", port)
+	seed := uint64(time.Now().UnixNano()) ^ uint64(os.Getpid())<<32
+	for i := 0; i < 200; i++ {
+		seed = mix(seed)
+		port := lo + int(seed%uint64(hi-lo))
+		conn, err := net.ListenUDP("udp4", &net.UDPAddr{IP: net.IPv4(127, 0, 0, 1), Port: port})
+		if err != nil {
+			continue // somebody listens there
+		}
+		conn.Close()
+		return fmt.Sprintf("127.0.0.1:%d", port)
+	}
+	return "127.0.0.1:9"
 }
